@@ -126,7 +126,7 @@ func Run(c *core.Ctx) int {
 		masks := []mk{{"empty", nil}, {"full", full}}
 		// single carriers: all kinds-file carriers rotate through; generated ones sampled
 		for k := 0; k < nmasks/3; k++ {
-			b := 901 + mr.Intn(63)
+			b := 901 + mr.Intn(80)
 			masks = append(masks, mk{fmt.Sprintf("single-%d", b), map[int]bool{b: true}})
 		}
 		for k := 0; k < nmasks/3 && p.Yields > 0; k++ {
